@@ -187,6 +187,15 @@ def o26(ctx):
                         f"{got if 'raise' in got else [(b_[0], b_[1], b_[2][:3]) for b_ in got['blocks']]}"[:500]
                         + f"{'; comments ' + str(got.get('comments')) if comments is not None and 'blocks' in got else ''}; written: labels {COLS}, "
                         f"rows {want_rows}", node, m, text=text[:300])
+    # a table with its labels and no rows (allowed as the last block): its block and labels are written and read back
+    for blocks_, cells_ in (([("data_particles", COLS)], [()]),):
+        text, node = _written_text(ctx, blocks_, True, None, cells_)
+        got = _sem.read_text(prog, text)
+        ctx.count(1, {"table without rows read back": got.get("blocks", got)})
+        if "blocks" not in got or [(b_[0], b_[1], len(b_[2])) for b_ in got["blocks"]] != [(s_, c_, 0) for s_, c_ in blocks_]:
+            ctx.finding(WR, node, f"a table with the labels {COLS} and no rows is read back as "
+                        f"{got if 'raise' in got else [(b_[0], b_[1], len(b_[2])) for b_ in got['blocks']]}: its block name and labels must be "
+                        f"written (text written: {text[:80]!r})", node, m, text=text[:300])
     # two blocks
     text, node = _written_text(ctx, [("data_optics", ["grp", "apix"]), ("data_particles", COLS)], True, None, [(("opt1", 2.5),), CELLS[:2]])
     got = _sem.read_text(prog, text)
@@ -206,7 +215,11 @@ def _same_number(a, b):
 def _written_text(ctx, blocks, number_columns, comments, cells):
     """the text Starfile.write hands to the file for tables with the given rows of cells (one list of rows per block)"""
     m, fn = ctx.prog.func(WR)
-    pieces = _run_writer(ctx, WR, blocks, number_columns, comments)
+    empty = all(len(c_) == 0 for c_ in cells)
+    pieces = _run_writer(ctx, WR, blocks, number_columns, comments, assume=_empty_tables if empty else None)
+    if empty:
+        # no rows: whatever depends on a row's cells is not written
+        return "".join(p_[1] for p_ in pieces if p_[0]), fn
     var = [p_ for p_ in pieces if not p_[0]]
     if len(var) != len(blocks):
         raise Unsupported(f"Starfile.write: expected one row line per block depending on the cells, found {len(var)} variable pieces", fn)
@@ -366,7 +379,21 @@ def o25(ctx):
     writer_text(ctx, WR, m, fn)
 
 
-def _run_writer(ctx, q, blocks, number_columns, comments, precision=None):
+def _empty_tables(fn_, node_, av_, module_=None):
+    """configuration 'the tables have no rows': every test that only asks how many rows a table has is answered for zero rows"""
+    t = to_term(av_) if av_ is not None else None
+    if t is None or not any(n.op == "call" and n.args[0] == "nrows" for n in tm.walk(t)):
+        return None
+    t0 = tm.subst(t, {n: const(0) for n in tm.walk(t) if n.op == "call" and n.args[0] == "nrows"})
+    if tm.symbols(t0) or tm.has_uninterpreted(t0):
+        return None
+    try:
+        return bool(tm.evaluate(t0, {}))
+    except Exception:  # noqa
+        return None
+
+
+def _run_writer(ctx, q, blocks, number_columns, comments, precision=None, assume=None):
     """-> list of (is_constant, python string | term, node) in the order written"""
     frames = []
     for k_, (spec_, cols) in enumerate(blocks):
@@ -374,7 +401,7 @@ def _run_writer(ctx, q, blocks, number_columns, comments, precision=None):
         f_.space = Space(f"block{k_}", how="root")
         f_.kinds = {c: ("object" if c in ("txt", "rlnImageName", "grp") else "number") for c in cols}
         frames.append(f_)
-    it = Interp(ctx.prog)
+    it = Interp(ctx.prog, assume=assume) if assume is not None else Interp(ctx.prog)
     kw = {"specifiers": Seq([K(s_) for s_, _ in blocks], "list"), "number_columns": K(number_columns)}
     if comments is not None:
         kw["comments"] = comments
@@ -667,4 +694,4 @@ def _obligations():
 
 
 def obligations():
-    return _obligations() + [labels_obligation("C02"), selectors_obligation("C02"), effects_obligation("C02"), plumbing_obligation("C02")]
+    return _obligations() + [labels_obligation("C02"), selectors_obligation("C02"), effects_obligation("C02"), plumbing_obligation("C02"), overrides_obligation("C02"), options_obligation("C02")]
